@@ -217,4 +217,65 @@ def gen_code_tables(write, Fail) -> None:  # noqa: N803
         out.append(f"Definition ROLE_{nm} : Z := {int(getattr(DEV_ROLE_MAP, nm), 16)}.")
     for nm in ("CTL", "UFC", "PRG", "DTS", "DT2", "OTB", "HGI", "HCW"):
         out.append(f"Definition DEVTYPE_{nm} : Z := {int(getattr(DEV_TYPE_MAP, nm))}.")
+    out.append(f"Definition ARRAY_ELEM_CHARS : list (Z * Z) := [{'; '.join(array_shapes(Fail))}].")
     write("GenTables.v", "\n".join(out) + "\n")
+
+
+def array_shapes(Fail) -> list[str]:  # noqa: N803
+    """Check the array branch of every array-capable parser and return (code, element length in chars).
+
+    The branch must be `[<elt> for i in range(0, len(payload), N)]` with N = 2 x CODES_WITH_ARRAYS[code][0]; every slice of
+    payload in <elt> must be payload[i + a : i + b] with 0 <= a < b <= N; the element's index must be payload[i : i + 2];
+    and a helper that decodes the whole payload in the single-element path must get the whole element (from i) in the array path.
+    """
+    import ast  # noqa: PLC0415
+    import inspect  # noqa: PLC0415
+
+    import ramses_tx.parsers as P  # noqa: PLC0415
+    from ramses_tx.ramses import CODES_WITH_ARRAYS  # noqa: PLC0415
+
+    def off(node):   # i -> 0, i + k -> k
+        if isinstance(node, ast.Name) and node.id == "i":
+            return 0
+        if isinstance(node, ast.BinOp) and isinstance(node.op, ast.Add) and isinstance(node.left, ast.Name) and node.left.id == "i" and isinstance(node.right, ast.Constant):
+            return int(node.right.value)
+        return None
+
+    rows = []
+    for code, v in CODES_WITH_ARRAYS.items():
+        fn_name = f"parser_{str(code).lower()}"
+        if not hasattr(P, fn_name):
+            raise Fail(f"ramses_tx.parsers.{fn_name} not found")
+        fn = ast.parse(inspect.getsource(getattr(P, fn_name))).body[0]
+        comps = [n for n in ast.walk(fn) if isinstance(n, ast.ListComp) and any(
+            isinstance(g.iter, ast.Call) and getattr(g.iter.func, "id", "") == "range" and "payload" in ast.unparse(g.iter) for g in n.generators)]
+        if len(comps) != 1:
+            raise Fail(f"{fn_name}: expected exactly one list comprehension over the payload, found {len(comps)}")
+        comp = comps[0]
+        g = comp.generators[0]
+        if ast.unparse(g.target) != "i" or len(g.iter.args) != 3 or ast.unparse(g.iter.args[0]) != "0" or ast.unparse(g.iter.args[1]) != "len(payload)" or not isinstance(g.iter.args[2], ast.Constant):
+            raise Fail(f"{fn_name}: the array loop is not `for i in range(0, len(payload), N)`: {ast.unparse(g.iter)}")
+        n = int(g.iter.args[2].value)
+        if n != 2 * int(v[0]):
+            raise Fail(f"{fn_name}: the array loop steps by {n} characters but CODES_WITH_ARRAYS says {v[0]} bytes per element")
+        slices = []
+        for node in ast.walk(comp.elt):
+            if isinstance(node, ast.Subscript) and isinstance(node.value, ast.Name) and node.value.id == "payload":
+                if not isinstance(node.slice, ast.Slice) or node.slice.lower is None or node.slice.upper is None:
+                    raise Fail(f"{fn_name}: unbounded slice of payload in the array element: {ast.unparse(node)}")
+                a, b = off(node.slice.lower), off(node.slice.upper)
+                if a is None or b is None or not 0 <= a < b <= n:
+                    raise Fail(f"{fn_name}: slice {ast.unparse(node)} is not within the element (0..{n})")
+                slices.append((a, b))
+        if (0, 2) not in slices and (0, n) not in slices:
+            raise Fail(f"{fn_name}: neither payload[i : i + 2] (the element's index) nor the whole element payload[i : i + {n}] in the array element")
+        # helpers that see the WHOLE payload in the single-element path must see the whole element in the array path
+        whole = {ast.unparse(c.func) for c in ast.walk(fn) if isinstance(c, ast.Call) and len(c.args) >= 1 and ast.unparse(c.args[0]) == "payload"
+                 and not any(c is x for x in ast.walk(comp))}
+        for c in ast.walk(comp.elt):
+            if isinstance(c, ast.Call) and ast.unparse(c.func) in whole and c.args and isinstance(c.args[0], ast.Subscript):
+                a, b = off(c.args[0].slice.lower), off(c.args[0].slice.upper)
+                if (a, b) != (0, n):
+                    raise Fail(f"{fn_name}: {ast.unparse(c.func)}() decodes the whole payload of a single element but gets {ast.unparse(c.args[0])} of an array element (expected payload[i : i + {n}])")
+        rows.append(f"({int(str(code), 16)}, {n})")
+    return rows
